@@ -13,6 +13,7 @@ import (
 	"fmt"
 	"io"
 	"os"
+	"path"
 	"path/filepath"
 	"sort"
 	"strings"
@@ -203,6 +204,7 @@ type step struct {
 	Hash  string            `json:"digest"`
 	Flags map[string]string `json:"flags,omitempty"`
 	Pipe  string            `json:"pipeline"`
+	Note  string            `json:"note,omitempty"`
 }
 
 type history struct {
@@ -306,6 +308,21 @@ func TestC08_Histories(t *testing.T) {
 					}
 					h.Steps = append(h.Steps, st)
 					resign := i > 0 || startSigned
+					if format == "jar" && i > 0 && rapid.IntRange(0, 3).Draw(t, "lowercase_sig_names") == 0 {
+						// signature file names are not case sensitive: what another tool may have
+						// written as META-INF/first.sf / first.rsa is still the old signature
+						if cur, err := os.ReadFile(path); err == nil {
+							if low := lowerCaseSignatureNames(cur); low != nil {
+								os.WriteFile(path, low, 0o644)
+								if _, err := env.Verify(&pipe.VerifyReq{Path: path}); err != nil {
+									os.WriteFile(path, cur, 0o644) // not a valid starting point after all
+								} else {
+									st.Note = "signature members renamed to lower case before this step"
+									h.Steps[len(h.Steps)-1] = st
+								}
+							}
+						}
+					}
 					if resign && format == "xap" && knownSet.Has(kXapResign) {
 						rec.Excluded(kXapResign)
 						break
@@ -426,6 +443,47 @@ func TestC08_Histories(t *testing.T) {
 			})
 		})
 	}
+}
+
+// lowerCaseSignatureNames renames META-INF/*.SF|RSA|DSA|EC members to lower case.
+func lowerCaseSignatureNames(data []byte) []byte {
+	zr, err := zip.NewReader(bytes.NewReader(data), int64(len(data)))
+	if err != nil {
+		return nil
+	}
+	var buf bytes.Buffer
+	zw := zip.NewWriter(&buf)
+	changed := false
+	for _, f := range zr.File {
+		name := f.Name
+		if dir, base := path.Split(name); dir == "META-INF/" {
+			switch strings.ToUpper(path.Ext(base)) {
+			case ".SF", ".RSA", ".DSA", ".EC":
+				name = dir + strings.ToLower(base)
+				changed = changed || name != f.Name
+			}
+		}
+		// raw copy: method, times, comments, extras and compressed bytes stay as they are
+		hdr := f.FileHeader
+		hdr.Name = name
+		hdr.Flags &^= 0x8 // sizes and CRC are known: no data descriptor needed
+		rc, err := f.OpenRaw()
+		if err != nil {
+			return nil
+		}
+		w, err := zw.CreateRaw(&hdr)
+		if err != nil {
+			return nil
+		}
+		if _, err := io.Copy(w, rc); err != nil {
+			return nil
+		}
+	}
+	zw.Close()
+	if !changed {
+		return nil
+	}
+	return buf.Bytes()
 }
 
 func containsClass(l []string, c string) bool {
